@@ -530,7 +530,7 @@ Inductive op :=
 | Given (sid : N) (r : tref) (v mask : N) (* {set sub user mode}: invite / change given / ban *)
 | Evict (sid : N) (r : tref) (v : N)      (* {del sub} *)
 | Pub (sid : N) (r : tref)                (* {pub}: "msg" notifications *)
-| Note (sid : N) (r : tref) (w : what) (seq : Z)  (* {note what=kp|read|recv}: w = WIKp | WIRead | WIRecv *)
+| Note (sid u : N) (r : tref) (w : what) (seq : Z)  (* {note what=kp|read|recv} of a session of user u: w = WIKp | WIRead | WIRecv *)
 | DelMsg (sid : N) (r : tref) (hard : bool)       (* {del what=msg delseq=[{low:1}]} *)
 | Unload (t : tname)                      (* idle timer of a topic without sessions: handleTopicTimeout *)
 | UnloadHub (t : tname)                   (* handleTopicTimeout line 495 only: the hub forgets the topic ... *)
@@ -810,18 +810,23 @@ Definition pub_op (s : state) (sid u : N) (t : tname) : state * list out :=
     (send (pres_subs_offline false t x2 WMsg CNo (mkFlt mR 0 None None) nil_flt None true) (put_top t x2 s), [Ctrl sid 202])
   end.
 
-(* Session.note (session.go:1239-1306) + handleNoteBroadcast (topic.go:1105-1234), kp / read / recv from an
-   attached session.  {note} is never answered.  `w` is the {info} kind. *)
+(* Session.note (session.go:1239-1306) + handleNoteBroadcast (topic.go:1105-1234), kp / read / recv.  From an
+   attached session the note goes to the topic directly; a "recv" from a session that is NOT attached goes
+   through hub.routeCli (hub.go:222-246) to the topic if it is loaded (anybody may send one: the topic decides);
+   every other note of a detached session is refused (the driver does not send it: Skipped).
+   {note} is never answered.  `w` is the {info} kind. *)
 Definition note_op (s : state) (sid u : N) (t : tname) (w : what) (seq : Z) : state * list out :=
+  let attached := sess_on s sid t in
+  if negb attached && negb (what_eqb w WIRecv) then (s, [Skipped]) else
+  (* session.go:1259-1272 *)
+  if (match w with
+      | WIKp => negb (seq =? 0)%Z
+      | WIRead | WIRecv => (seq <=? 0)%Z
+      | _ => true end) then (s, []) else
   match get_top s t with
-  | None => (s, [Skipped])
+  | None => (s, [])
   | Some x =>
-    if negb (sess_on s sid t) then (s, [Skipped]) else
-    (* session.go:1259-1272 *)
-    if (match w with
-        | WIKp => negb (seq =? 0)%Z
-        | WIRead | WIRecv => (seq <=? 0)%Z
-        | _ => true end) then (s, []) else
+    if negb attached && negb (t_loaded x) then (s, []) else
     if (t_lastid x <? seq)%Z then (s, []) else
     let p := if found t x u then get_pud x u else blank_pud in
     (* mode = ModeInvalid for a deleted user: no bit set *)
@@ -968,11 +973,10 @@ Definition step_gen (rep : bool) (s : state) (o : op) : state * list out :=
     | None => (s, [Skipped])
     | Some u => match r with RMe => (s, [Skipped]) | _ => pub_op s sid u (resolve u r) end
     end
-  | Note sid r w seq =>
-    match sess_user s sid with
-    | None => (s, [Skipped])
-    | Some u => match r with RMe => (s, [Skipped]) | _ => note_op s sid u (resolve u r) w seq end
-    end
+  | Note sid u r w seq =>
+    (* a session that has not attached to anything yet is not in the table; it may still send a "recv" *)
+    if (match sess_user s sid with Some u' => negb (u' =? u) | None => false end) then (s, [Skipped]) else
+    match r with RMe => (s, [Skipped]) | _ => note_op s sid u (resolve u r) w seq end
   | DelMsg sid r hard =>
     match sess_user s sid with
     | None => (s, [Skipped])
